@@ -38,6 +38,10 @@ pub open spec fn has_ident_attr(attrs: Seq<Attribute>, name: Seq<char>, k: int) 
 }
 
 // ---------- vftable slot vocabulary (C04) ----------
+/// `s.strip_prefix(p).unwrap_or(s)`: the text after `p` when `s` starts with `p`, else `s`
+pub open spec fn spec_strip_prefix(s: Seq<char>, p: Seq<char>) -> Seq<char> {
+    if s.len() >= p.len() && s.subrange(0, p.len() as int) == p { s.subrange(p.len() as int, s.len() as int) } else { s }
+}
 pub uninterp spec fn spec_fmt1(lit: Seq<char>, a: Seq<char>) -> Seq<char>;
 pub uninterp spec fn spec_fmt2(lit: Seq<char>, a: Seq<char>, b: Seq<char>) -> Seq<char>;
 pub uninterp spec fn spec_display_usize(n: usize) -> Seq<char>;
